@@ -1,7 +1,10 @@
 (** Property C06 - unbounded MPMC queues are linearizable FIFO queues.
-    Only statements here; proofs live in LV.Proofs.MSQueue*.
+    Only statements here; proofs live in LV.Proofs.MSQueue{Base,Inv,Proofs} (MSQueue, MoirQueue),
+    LV.Proofs.OptQueue{Inv,Proofs} (OptimisticQueue), LV.Proofs.RWQueueProofs (RWQueue).
+    NOT covered by a theorem here: BasketQueue and FCQueue (their real histories are decided by the verified
+    lincheck in checks/C06.py; FCQueue's theorem is to be assembled from the flat-combining kernel, C23).
 
-    HYPOTHESIS [smr_safe] (DESIGN section 4), built into the model LV.Model.MSQueue: nodes are abstract
+    HYPOTHESIS [smr_safe] (DESIGN section 4), built into the models LV.Model.MSQueue / OptQueue: nodes are abstract
     ids from a never-reusing allocator, i.e. no node is recycled while a validated hazard pointer can
     still reach it.  That is the conclusion of the C01 / C02 theorems about gc::HP / gc::DHP; the
     hazard-pointer traffic of the queues appears in the model only as events (checked step by step against
@@ -15,7 +18,7 @@
 From Coq Require Import ZArith List String Bool.
 From LV Require Import Base.Conc Base.Events Base.Lin Spec.Specs Proofs.LinProofs Model.MSQueue
   Proofs.MSQueueBase Proofs.MSQueueInv Proofs.MSQueueProofs.
-From LV Require Model.RWQueue Proofs.RWQueueProofs.
+From LV Require Model.RWQueue Proofs.RWQueueProofs Model.OptQueue Proofs.OptQueueInv Proofs.OptQueueProofs.
 Import ListNotations.
 Local Open Scope Z_scope.
 Local Open Scope string_scope.
@@ -89,6 +92,30 @@ Theorem C06_rwqueue_linearizable :
 Proof. intros. split; [eapply RWQueueProofs.rwq_lp_trace|eapply RWQueueProofs.rwqueue_linearizable]; eauto. Qed.
 Print Assumptions C06_rwqueue_linearizable.
 
+(** cds::container::OptimisticQueue (over intrusive::OptimisticQueue, incl. fix_list), item counter on or
+    off, HP or DHP: linearizable for every schedule *)
+Theorem C06_optqueue_linearizable :
+  forall (cf : OptQueue.conf) (fuel : nat) (ths : list (list OptQueue.op)) c,
+    Conc.reach (OptQueue.init_cfg cf fuel ths) c ->
+    (exists atr : list (aev Fifo), lp_valid Fifo atr /\ erase atr = hist (Conc.trace c)) /\
+    linearizable Fifo (hist (Conc.trace c)).
+Proof. intros. split; [eapply OptQueueProofs.optq_lp_trace|eapply OptQueueProofs.optqueue_linearizable]; eauto. Qed.
+Print Assumptions C06_optqueue_linearizable.
+
+(** OptimisticQueue structure at every instant: the linked nodes form one duplicate-free list in enqueue
+    order that ends at tail, the next pointers run backwards through it to the first dummy, no prev pointer
+    dangles, and the values after head are exactly the abstract queue (no loss, no duplication) *)
+Theorem C06_optqueue_next_chain_wellformed_no_loss_no_dup :
+  forall cf fuel ths c, Conc.reach (OptQueue.init_cfg cf fuel ths) c ->
+    let g := Conc.shared c in
+    exists (dn rs : list nat) (atr : list (aev Fifo)) (f : stmap),
+      NoDup (dn ++ OptQueue.head g :: rs) /\ linked (OptQueue.nxt g) (rev (dn ++ OptQueue.head g :: rs)) /\
+      (exists l', dn ++ OptQueue.head g :: rs = l' ++ [OptQueue.tail g]) /\
+      (forall n x, OptQueue.prv g n = Some x -> In x (dn ++ OptQueue.head g :: rs)) /\
+      @lp_run Fifo (@lp_init Fifo) atr = Some (map (OptQueue.val g) rs, f) /\ erase atr = hist (Conc.trace c).
+Proof. exact OptQueueProofs.optq_chain. Qed.
+Print Assumptions C06_optqueue_next_chain_wellformed_no_loss_no_dup.
+
 (** non-vacuity: a concrete 3-thread run of MSQueue (item counter on, HP) with interleaved operations: one
     dequeue finds the queue empty, another thread dequeues the value 10; the history has 5 completed
     operations and is accepted by the verified checker *)
@@ -113,6 +140,14 @@ Proof. vm_compute. repeat split; auto. Qed.
 Example C06_rwqueue_nonvacuous :
   let r := RWQueue.run_case [0; 1; 1; 100] [[[1;10]; [2]]; [[2]; [1;20]]; [[2]]]
              [1;1;0;0;1;0;2;2;0;1;1;2;2;0;0;1;1;2;0;0;0;1;1;1]%nat 2000 in
+  snd r = true /\
+  List.length (hist (fst r)) = 10%nat /\
+  lincheck Fifo (hist (fst r)) = true.
+Proof. vm_compute. repeat split; auto. Qed.
+
+Example C06_optqueue_nonvacuous :
+  let r := OptQueue.run_case [0; 1; 1; 100] [[[1;10]; [2]]; [[2]; [1;20]]; [[2]]]
+             [1;1;0;0;1;0;2;2;0;1;1;2;2;0;0;1;1;2;0;0;0;1;1;1;0;0;0;0;0;0;0;0;0;0;0;0;0;0;2;2;2;2;2;2;2;2;2;2;2;2;2]%nat 3000 in
   snd r = true /\
   List.length (hist (fst r)) = 10%nat /\
   lincheck Fifo (hist (fst r)) = true.
